@@ -460,17 +460,20 @@ impl Cx {
             self.listed.push(name.to_string());
             return false;
         }
-        if !self.a.wants(name) {
+        // "fam:group@variant": runs are grouped (and cut out of a trace on rejection) by fam:group; the full
+        // name identifies the configuration
+        let (subj, _) = name.split_once('@').unwrap_or((name, ""));
+        if !self.a.wants(name) && !self.a.wants(subj) {
             return false;
         }
         let (fam, variant) = name.split_once(':').unwrap_or((name, ""));
-        let mut c = json!({"fam": fam, "variant": variant});
+        let mut c = json!({"fam": fam, "variant": variant, "full": name});
         if let (Some(o), Some(x)) = (c.as_object_mut(), cfg.as_object()) {
             for (k, v) in x {
                 o.insert(k.clone(), v.clone());
             }
         }
-        self.cur_subject = name.to_string();
+        self.cur_subject = subj.to_string();
         self.cur_cfg = c;
         self.reset_done = false;
         true
@@ -774,7 +777,7 @@ fn fam_radix(cx: &mut Cx) {
     }
     for (rb, cthr, pt) in variants {
         si += 1;
-        let name = format!("radix:u32/rb{rb}/c{cthr}/{}", pt_name(pt));
+        let name = format!("radix:u32/c{cthr}@rb{rb}/{}", pt_name(pt));
         let cfg = json!({"elem": "u32", "radix_bits": rb, "cthr": cthr, "parallel": pt.is_some(), "pthr": pt.unwrap_or(0)});
         if !cx.subject(&name, cfg) {
             continue;
@@ -813,7 +816,7 @@ fn fam_radix(cx: &mut Cx) {
     for rb in [4usize, 8, 11, 16] {
         for pt in [None, Some(8), Some(10_000)] {
             si += 1;
-            let name = format!("radix:u64/rb{rb}/{}", pt_name(pt));
+            let name = format!("radix:u64@rb{rb}/{}", pt_name(pt));
             let cfg = json!({"elem": "u64", "radix_bits": rb, "cthr": 0, "parallel": pt.is_some(), "pthr": pt.unwrap_or(0)});
             if !cx.subject(&name, cfg) {
                 continue;
@@ -949,7 +952,18 @@ fn adv_cfg_json(elem: &str, c: &AdvancedRadixSortConfig) -> Value {
 fn adv_int<T: Key + RadixSortable>(cx: &mut Cx, elem: &str, si0: usize) {
     for (i, av) in adv_variants(cx.thorough).into_iter().enumerate() {
         let si = si0 + i;
-        if !cx.subject(&format!("adv:{elem}/{}", av.name), adv_cfg_json(elem, &av.cfg)) {
+        // subject = element type x strategy group; the radix width / thread count / threshold grid is the variant
+        let group = if av.name.starts_with("lsd/") {
+            let simd = if av.cfg.use_simd { "simd" } else { "nosimd" };
+            format!("adv:{elem}/lsd/{simd}@{}", av.name.replacen(&format!("/{simd}"), "", 1).replacen("lsd/", "", 1))
+        } else if av.name.starts_with("auto/") {
+            format!("adv:{elem}/auto@{}", &av.name[5..])
+        } else if av.name.starts_with("msd/") {
+            format!("adv:{elem}/msd@{}", &av.name[4..])
+        } else {
+            format!("adv:{elem}/{}", av.name)
+        };
+        if !cx.subject(&group, adv_cfg_json(elem, &av.cfg)) {
             continue;
         }
         let mut cases = small_cases::<T>(cx, si, SMALL_LENS);
@@ -1000,7 +1014,7 @@ fn adv_str(cx: &mut Cx) {
     }
     vars.push(("auto/default".into(), AdvancedRadixSortConfig::default()));
     for (i, (name, cfg)) in vars.into_iter().enumerate() {
-        if !cx.subject(&format!("adv:str/{name}"), adv_cfg_json("bytes", &cfg)) {
+        if !cx.subject(&format!("adv:str@{name}"), adv_cfg_json("bytes", &cfg)) {
             continue;
         }
         let mut cases = small_cases::<Vec<u8>>(cx, 300 + i, SMALL_LENS);
@@ -1036,7 +1050,7 @@ fn co_json(elem: &str, esize: usize, entry: &str, c: &CacheObliviousConfig) -> V
         "l2_line": h.l2_line_size, "small_threshold": c.small_threshold, "simd": c.use_simd})
 }
 fn co_run<T: Key>(cx: &mut Cx, name: &str, elem: &str, entry: &'static str, cfg: CacheObliviousConfig, cases: Vec<Case>) {
-    if !cx.subject(name, co_json(elem, std::mem::size_of::<T>(), entry, &cfg)) {
+    if !cx.subject(&name.replacen('/', "@", 1), co_json(elem, std::mem::size_of::<T>(), entry, &cfg)) {
         return;
     }
     for c in cases {
@@ -1075,7 +1089,7 @@ fn fam_co(cx: &mut Cx) {
     cases.extend(big_cases::<Vec<u8>>(4, &[1025, 3000], &["rand", "reversed"], &["full", "prefix"]));
     co_run::<Vec<u8>>(cx, "co:default/bytes", "bytes", "sort", d.clone(), cases);
     // the Algorithm trait entry point (Vec<i32>)
-    if cx.subject("co:default/execute", co_json("i32", 4, "execute", &d)) {
+    if cx.subject("co:default@execute", co_json("i32", 4, "execute", &d)) {
         for c in small_cases::<i32>(cx, 5, SMALL_LENS) {
             let cfg = d.clone();
             sort_case::<i32>(cx, &c, false, &mut |v| {
@@ -1135,7 +1149,7 @@ fn fam_rss(cx: &mut Cx) {
     for buf in 0..=8usize {
         let w = ways[buf % ways.len()];
         let bytes = if buf == 0 { 4 } else { 8 * buf };
-        let name = format!("rss:u64/buf{buf}/ways{w}");
+        let name = format!("rss:u64@buf{buf}/ways{w}");
         if !cx.subject(&name, json!({"elem": "u64", "buf_items": buf, "merge_ways": w, "cmp": "ord"})) {
             continue;
         }
@@ -1154,7 +1168,7 @@ fn fam_rss(cx: &mut Cx) {
     }
     // a caller-supplied (reversed) comparator
     for buf in [1usize, 3, 64] {
-        let name = format!("rss:u64/buf{buf}/desc");
+        let name = format!("rss:u64/desc@buf{buf}");
         if !cx.subject(&name, json!({"elem": "u64", "buf_items": buf, "merge_ways": 16, "cmp": "reversed"})) {
             continue;
         }
@@ -1594,7 +1608,7 @@ fn new_cx(a: &Args, stem: &str, from: usize, list_only: bool) -> Cx {
     // files are validated by one JVM each; a rejected subject costs two more JVM runs over the rest of its
     // file, so families with many configurations get smaller files (shorter chains), the others larger ones
     let small_files = matches!(a.get("fam"), Some("adv") | Some("co") | Some("kv") | Some("rss") | Some("ksets") | Some("radix"));
-    t.max_events = a.get_u64("max-events", if small_files { 200 } else { 900 }) as usize;
+    t.max_events = a.get_u64("max-events", if small_files { 350 } else { 900 }) as usize;
     Cx {
         a: a.clone(),
         t,
@@ -1699,6 +1713,38 @@ fn drive(a: &Args) {
             t.ev(r["ev"].clone());
         }
     }
+    // a child restarted after a crash starts a new trace file: concatenate the pieces of a family into
+    // files of the intended size again (every piece starts with a reset event, so runs stay intact)
+    for fam in fams.iter() {
+        let small_files = matches!(*fam, "adv" | "co" | "kv" | "rss" | "ksets" | "radix");
+        let cap = a.get_u64("max-events", if small_files { 350 } else { 900 }) as usize;
+        let mut pieces: Vec<PathBuf> = std::fs::read_dir(&a.out)
+            .unwrap()
+            .filter_map(|e| e.ok().map(|e| e.path()))
+            .filter(|p| p.file_name().and_then(|n| n.to_str()).map_or(false, |n| n.starts_with(&format!("t-{fam}-")) && n.ends_with(".ndjson")))
+            .collect();
+        pieces.sort();
+        let (mut buf, mut lines, mut no) = (String::new(), 0usize, 0usize);
+        let flush = |buf: &mut String, lines: &mut usize, no: &mut usize| {
+            if *lines > 0 {
+                std::fs::write(a.out.join(format!("m-{fam}-{:03}.ndjson", *no)), buf.as_bytes()).unwrap();
+                *no += 1;
+                buf.clear();
+                *lines = 0;
+            }
+        };
+        for p in pieces {
+            let txt = std::fs::read_to_string(&p).unwrap_or_default();
+            let n = txt.lines().count();
+            if lines > 0 && lines + n > cap + cap / 4 {
+                flush(&mut buf, &mut lines, &mut no);
+            }
+            buf.push_str(&txt);
+            lines += n;
+            let _ = std::fs::remove_file(&p);
+        }
+        flush(&mut buf, &mut lines, &mut no);
+    }
     for (_, mut t) in crash_files {
         t.close();
     }
@@ -1734,7 +1780,7 @@ fn summarize(a: &Args, crashes: usize, fatal: &[String]) {
         for e in read_ndjson(p) {
             let op = e["op"].as_str().unwrap_or("").to_string();
             if op == "reset" {
-                subj = e["subject"].as_str().unwrap_or("").to_string();
+                subj = e["full"].as_str().or(e["subject"].as_str()).unwrap_or("").to_string();
                 runs += 1;
                 subjects.entry(subj.clone()).or_default();
                 continue;
